@@ -1584,6 +1584,56 @@ fn clockrace_case(rng: &mut Rng, out: &mut Out, idx: u64) {
     if let Some(b) = bad { out.failures.push(format!("C12\tversion clock under contention ({} other keys of the same clock shard written automatically by other threads): {}\t-", mates.len(), b)); }
 }
 
+/// flush() while writers replace the same keys as fast as they can: a flush concerns what was accepted before it
+/// was called, so it has to return in bounded time however many writes follow.  Two writers run flat out for a few
+/// seconds, a few callers call flush() in a loop; reported: a flush() call that did not return for as long as the
+/// writers ran.  (Known finding F8: on the pinned tree `force_flush` starts another round whenever a retirement had
+/// to be postponed because its successor is not durable yet - with writers that outpace the device that is always.)
+fn flushstorm_case(rng: &mut Rng, out: &mut Out, dir: &str, idx: u64) {
+    use std::sync::atomic::{AtomicBool, AtomicU64, Ordering as O};
+    feoxdb::verif::clock::unpin();
+    let path = format!("{}/flushstorm{}.feox", dir, idx);
+    let _ = std::fs::remove_file(&path);
+    let store = match FeoxStore::builder().hash_bits(8).no_memory_limit().device_path(path.clone()).file_size(16384 * BS).enable_caching(false).build() {
+        Ok(s) => Arc::new(s), Err(_) => return };
+    let storm = Duration::from_millis(rng.range(2500, 3500));
+    let stop = Arc::new(AtomicBool::new(false));
+    let maxlat = Arc::new(AtomicU64::new(0));
+    let done = Arc::new(AtomicU64::new(0));
+    let mut hs = vec![];
+    for w in 0..2u64 {
+        let (st, stop) = (store.clone(), stop.clone());
+        hs.push(std::thread::spawn(move || { let mut n = 0u64; while !stop.load(O::Relaxed) { let k = format!("fs{}", (n * 7 + w) % 200); let _ = st.insert(k.as_bytes(), &n.to_le_bytes().repeat(20)); n += 1; } }));
+    }
+    let mut fl = vec![];
+    for _ in 0..rng.range(2, 4) {
+        let (st, stop, maxlat, done) = (store.clone(), stop.clone(), maxlat.clone(), done.clone());
+        fl.push(std::thread::spawn(move || { while !stop.load(O::Relaxed) { let t = Instant::now(); let _ = st.flush(); maxlat.fetch_max(t.elapsed().as_millis() as u64, O::Relaxed); done.fetch_add(1, O::Relaxed); } }));
+    }
+    std::thread::sleep(storm);
+    let completed_during = done.load(O::Relaxed);
+    stop.store(true, O::Relaxed);
+    let t0 = Instant::now();
+    let mut stuck = false;
+    for h in hs.into_iter().chain(fl.into_iter()) {
+        while !h.is_finished() && t0.elapsed() < WATCHDOG * 3 { std::thread::sleep(Duration::from_millis(2)); }
+        if h.is_finished() { let _ = h.join(); } else { stuck = true; }
+    }
+    out.count("flushstorm case");
+    let worst = maxlat.load(O::Relaxed);
+    if stuck {
+        out.failures.push(format!("C18\tflush() under saturating replacement of the same keys: a flush() call had still not returned {} s after the writers stopped\t-", (WATCHDOG * 3).as_secs()));
+        return;
+    }
+    if worst + 300 >= storm.as_millis() as u64 {
+        out.failures.push(format!("C18\tflush() under saturating replacement of the same keys: a flush() call did not return for the {} ms two writers kept replacing 200 keys ({} flush calls completed meanwhile; it returned {} ms after they stopped)\t-", storm.as_millis(), completed_during, t0.elapsed().as_millis()));
+    }
+    let st = store.clone();
+    drop(store);
+    if !with_watchdog(move || drop(st)) { out.failures.push("C18\tdrop of the store after a flush storm did not return\t-".into()); }
+    let _ = std::fs::remove_file(&path);
+}
+
 /// the live io_uring path with a device that rejects writes: the store is opened with the ring enabled (every
 /// other case forces the synchronous path for determinism), then the file-size limit of the process is lowered so
 /// that ring writes past it complete with EFBIG.  flush(), reads and drop must all return; with room again a
@@ -2275,6 +2325,10 @@ fn main() {
     }
     for i in 0..get("races", 0) {
         race_case(&mut rng, &mut out, &ctl, &wl, &args.out, i);
+    }
+    // (a storm saturates several cores: only every fourth harness process of a run takes part)
+    for i in 0..(if args.seed % 4 == 0 { get("flushstorm", 0) } else { 0 }) {
+        flushstorm_case(&mut rng, &mut out, &args.out, i);
     }
     for i in 0..get("clockrace", 0) {
         clockrace_case(&mut rng, &mut out, i);
